@@ -177,6 +177,13 @@ SPECS = [
 """, "", "R7.7", "ply unbounded again: per-ply tables indexed out of bounds at iteration depth 41 (null-move ply offset)"),
     ("C07", "plycap-off-by-one", EN, "    if ply_from_root >= MAX_DEPTH as i32 {", "    if ply_from_root > MAX_DEPTH as i32 {", "R7.7", "ply 100 still indexes a 100-entry table"),
     ("C08", "nullmove-ply-offset-after-cap", EN, "            ply_from_root + 10, //hack", "            ply_from_root + 10 + i32::MAX - 200, //hack", "R7.7", "ply arithmetic can overflow"),
+    ("C15", "revert-fix11-fen-arg", "src/main.rs",
+     """    let fen = matches
+        .value_of_lossy("fen")
+        .unwrap_or_else(|| board::DEFAULT_FEN_STRING.into());
+    let board = match board::BoardState::from_fen(&fen) {""",
+     """    let fen = matches.value_of("fen").unwrap_or(board::DEFAULT_FEN_STRING);
+    let board = match board::BoardState::from_fen(fen) {""", "R15.5", "--fen with non-UTF-8 bytes panics in clap before from_fen sees it"),
     # ---------------- C08
     ("C08", "revert-fix9", UC,
      """        match rx.try_recv() {
@@ -599,13 +606,13 @@ pub fn send_to_gui(message: &str) {
                 kind: Knight,
             }),""", "R15.3", "black knights and bishops swapped on load (killed by tests? control)"),
     ("C15", "castle-letter-case", BD, """            black_queen_side_castle: castling_privileges.find('q') != None,""", """            black_queen_side_castle: castling_privileges.find('Q') != None,""", "R15.3", "black queen-side right read from the white letter"),
-    ("C15", "main-unwraps-fen", "src/main.rs", """    let board = match board::BoardState::from_fen(fen) {
+    ("C15", "main-unwraps-fen", "src/main.rs", """    let board = match board::BoardState::from_fen(&fen) {
         Ok(b) => b,
         Err(err) => {
             println!("{}", err);
             return;
         }
-    };""", """    let board = board::BoardState::from_fen(fen).unwrap();""", "R15.5", "CLI panics on a bad FEN"),
+    };""", """    let board = board::BoardState::from_fen(&fen).unwrap();""", "R15.5", "CLI panics on a bad FEN"),
     ("C15", "row-completeness-dropped", BD, """            if col != BOARD_END {
                 return Err("Could not parse fen string: Complete row was not specified");
             }
